@@ -218,10 +218,10 @@ def run(ctx):
     ctx.rule("C11.once", "each core layer forwards once", floor=4)
     ctx.rule("C11.threads", "thread entry points use the locked chain", floor=3)
     ctx.assume("consonance's write_segment calls back synchronously; asyncore's buffer preserves append order")
-    rule_hoh(ctx)
-    full = rule_adj(ctx)
+    ctx.guarded("C11.hoh", rule_hoh, ctx)
+    full = ctx.guarded("C11.adj", rule_adj, ctx)
     if full:
-        rule_only(ctx, full)
-    rule_enc(ctx)
-    rule_once_frame(ctx)
-    rule_threads(ctx)
+        ctx.guarded("C11.only", rule_only, ctx, full)
+    ctx.guarded("C11.enc", rule_enc, ctx)
+    ctx.guarded("C11.once", rule_once_frame, ctx)
+    ctx.guarded("C11.threads", rule_threads, ctx)
